@@ -103,7 +103,9 @@ func (sb *schemaBuilder) getTextMarshalerType(typ reflect.Type) (graphql.Type, e
 		Type: "string",
 		Unwrapper: func(source interface{}) (interface{}, error) {
 			i := reflect.ValueOf(source)
-			if i.Kind() == reflect.Ptr && i.IsNil() {
+			// A batch resolver may leave a source out of its result map; there is
+			// then no value at all (not even a nil pointer).
+			if !i.IsValid() || (i.Kind() == reflect.Ptr && i.IsNil()) {
 				return "", nil
 			}
 			marshalVal, ok := i.Interface().(encoding.TextMarshaler)
